@@ -23,6 +23,7 @@ const (
 	opAppend = 0
 	opJoin   = 1
 	opReload = 2
+	opSetID  = 3
 )
 
 type histCfg struct {
@@ -34,11 +35,12 @@ type histCfg struct {
 	pcN      int  // number of pointer-count alternatives tried at each append (1 = default only)
 	emptyAt  int  // index of the append that carries an empty payload (-1 = none)
 	realIO   bool // the real default CBOR codec over the store's DAG service and real (keystore) identities
+	setID    bool // step kind "set identity": the replica switches to the next writer identity
 }
 
 func histParams() histCfg {
 	return histCfg{R: vx.Param("R", 2), K: vx.Param("K", 3), W: vx.Param("W", 2), sort: vx.Param("SORT", sortHash),
-		symClock: vx.Param("SYMCLOCK", 0) == 1, reload: vx.Param("RELOAD", 0) == 1, deny: vx.Param("DENY", 0) == 1, pcN: vx.Param("PCN", 1), emptyAt: vx.Param("EMPTYAT", -1), realIO: vx.Param("REALIO", 0) == 1}
+		symClock: vx.Param("SYMCLOCK", 0) == 1, reload: vx.Param("RELOAD", 0) == 1, deny: vx.Param("DENY", 0) == 1, pcN: vx.Param("PCN", 1), emptyAt: vx.Param("EMPTYAT", -1), realIO: vx.Param("REALIO", 0) == 1, setID: vx.Param("SETID", 0) == 1}
 }
 
 var pcTable = []int{0, 2, 4, 3, 8, -1, 16, 1}
@@ -49,6 +51,7 @@ type hist struct {
 	ids     []*idp.Identity
 	logs    []*ipfslog.IPFSLog
 	acs     []accesscontroller.Interface
+	cur     []int // current writer identity of each replica
 	step    int
 	nAppend int
 	// last operation
@@ -59,7 +62,12 @@ type hist struct {
 
 func (h *hist) sortFn() iface.EntrySortFn { return pickSort(h.cfg.sort) }
 
-func (h *hist) writerOf(r int) *idp.Identity { return h.ids[r%h.cfg.W] }
+func (h *hist) writerOf(r int) *idp.Identity {
+	if r < len(h.cur) {
+		return h.ids[h.cur[r]]
+	}
+	return h.ids[r%h.cfg.W]
+}
 
 // io returns the codec the history's logs use.
 func (h *hist) io() iface.IO {
@@ -79,6 +87,9 @@ func newHist(cfg histCfg) *hist {
 		h.ids, _ = realIdentities([]string{"userA", "userB", "userC"}[:cfg.W]...)
 	}
 	for r := 0; r < cfg.R; r++ {
+		h.cur = append(h.cur, r%cfg.W)
+	}
+	for r := 0; r < cfg.R; r++ {
 		o := &ipfslog.LogOptions{SortFn: h.sortFn(), IO: h.io()}
 		if cfg.deny && r == 0 && cfg.W > 1 {
 			o.AccessController = &denyWriter{id: h.ids[cfg.W-1].ID}
@@ -96,7 +107,7 @@ func newHist(cfg histCfg) *hist {
 // history can produce: always for the hash tie-break; for last/first-write-wins when no two entries can
 // share (clock id, time), i.e. every replica has its own writer key and replicas are never rebuilt.
 func (h *hist) strictTotal() bool {
-	return h.cfg.sort == sortHash || (h.cfg.W >= h.cfg.R && !h.cfg.reload && !h.cfg.symClock)
+	return h.cfg.sort == sortHash || (h.cfg.W >= h.cfg.R && !h.cfg.reload && !h.cfg.symClock && !h.cfg.setID)
 }
 
 // run performs K steps; pre/post are the property-specific observers.
@@ -104,6 +115,9 @@ func (h *hist) run(pre func(h *hist), post func(h *hist)) {
 	R := h.cfg.R
 	nOps := R + R*(R-1)
 	if h.cfg.reload {
+		nOps += R
+	}
+	if h.cfg.setID {
 		nOps += R
 	}
 	for s := 0; s < h.cfg.K; s++ {
@@ -125,8 +139,14 @@ func (h *hist) run(pre func(h *hist), post func(h *hist)) {
 			if h.src >= h.dst {
 				h.src++
 			}
-		default:
+		case h.cfg.reload && op < R+R*(R-1)+R:
 			h.kind, h.dst, h.src = opReload, op-R-R*(R-1), -1
+		default:
+			h.kind, h.src = opSetID, -1
+			h.dst = op - R - R*(R-1)
+			if h.cfg.reload {
+				h.dst -= R
+			}
 		}
 		if pre != nil {
 			pre(h)
@@ -145,6 +165,9 @@ func (h *hist) run(pre func(h *hist), post func(h *hist)) {
 			h.nAppend++
 		case opJoin:
 			_, h.err = h.logs[h.dst].Join(h.logs[h.src], -1)
+		case opSetID:
+			h.cur[h.dst] = (h.cur[h.dst] + 1) % h.cfg.W
+			h.logs[h.dst].SetIdentity(h.ids[h.cur[h.dst]])
 		case opReload:
 			old := h.logs[h.dst]
 			h.logs[h.dst] = newLogOpt(h.api, h.writerOf(h.dst), &ipfslog.LogOptions{SortFn: h.sortFn(), IO: h.io(), Entries: old.GetEntries(), AccessController: h.acs[h.dst]})
